@@ -158,6 +158,9 @@ class PathVal(SVal):
     def type_desc(self):
         return TPath()
 
+    def meth_unlink(self, cx):
+        cx.effect("unlink", self.t)
+
     def py_hash(self, cx):
         return SStr(self.t).py_hash(cx)
 
